@@ -129,7 +129,8 @@ class Model(BaseModel):
         return out
 
     def apply(self, st, op, step):
-        a = st['a'].copy(); ref = st['ref'].copy()
+        import copy as _copy
+        a = _copy.deepcopy(st['a']); ref = st['ref'].copy()      # harness-side clone (Atoms.copy is library code)
         pi, ra = op[1], op[2]
         frac_, ans = (op[3], op[4]) if len(op) > 3 else (1.0, None)
         name, skey, rel, rpos, *_ = PAIRS[pi]
@@ -139,6 +140,8 @@ class Model(BaseModel):
         civ = st['civ'] or (len(a.atom_types) > 0 and len(a.pair_coeffs) == 0 and len(rp.atom_types) > 0 and len(rp.pair_coeffs) > 0)
         REC.pop('last', None)
         ex = explorer(dict(seed=0, tier=self.tier))
+        inputs = [('the structure', a), ('the search pattern', sp), ('the replacement pattern', rp)]; before = [raw_state(x) for _, x in inputs]
+        refrp = RefStructure.of(rp, uid0=0) if rel else None
         try:
             (res, err), trace = ex.run(lambda: call(replace_pattern_in_structure, a, sp, rp, replace_all=bool(ra), replace_fraction=frac_), () if ans is None else (ans,))
         except Divergence:
@@ -160,8 +163,15 @@ class Model(BaseModel):
             matches = [matches[i] for i in list(itertools.permutations(range(2), 2))[pts[0][2]]]
         sh = shared_map(sel, np.array([j * STEP for j in range(len(sel))]), rel, np.array(rpos, float).reshape(-1, 3)) if rel else {}
         uid0 = 10000 * (step + 1)
+        bad = untouched(before, inputs)
+        if bad:
+            raise Violation('untouched', 'input-modified', '%r: %s' % (op, '; '.join(bad)))
         nins = ref.replace(matches, (lambda mi: RefStructure.of(rp, uid0=uid0 + 100 * mi, origin=uid0)) if rel else (lambda mi: None), sh, bool(ra))
-        a = res
+        keep = _copy.deepcopy(res)
+        bad = alias_probe(res, inputs, 'the returned structure')
+        if bad:
+            raise Violation('untouched', 'shared-data', '%r: %s' % (op, '; '.join(bad)))
+        a = keep
         if nins:
             if len(a.atom_types) != len(ref.atoms):
                 raise Violation('resolved-view', 'atom-count', '%r: result has %d atoms, reference %d' % (op, len(a.atom_types), len(ref.atoms)))
